@@ -36,7 +36,7 @@ ASSUMPTIONS = [
 ]
 REQUIRED = {"all": ["judged_calls", "references_computed", "pair:get_kappa->get_deltaMax(True)",
                     "pair:get_deltaMax->get_deltaMax(True)", "after_perturber_raise", "multi_object_histories",
-                    "preset_phosphosites_histories", "distinct_ops_ge_40", "state_snapshots", "adopted_shuffled_children", "thread_rounds", "several_objects_of_one_string", "default_shuffle_mobility_checks"]}
+                    "preset_phosphosites_histories", "distinct_ops_ge_40", "state_snapshots", "adopted_shuffled_children", "thread_rounds", "several_objects_of_one_string", "default_shuffle_mobility_checks", "objects_with_nine_phosphosites"]}
 NHIST = {"quick": 280, "thorough": 3000}
 NSEQ = {"quick": 90, "thorough": 600}
 MAX_SHARDS = 16
@@ -105,6 +105,8 @@ def build_ops():
     ops["get_reduced_alphabet_sequence(user)"] = lambda o, k: o.get_reduced_alphabet_sequence(userAlphabet=[UA1, UA2, UA3][k])
     ops["get_linear_complexity(cfg)"] = lambda o, t, size, w, s, ws: o.get_linear_complexity(t, size, {}, w, s, ws)
     ops["get_linear_complexity(user)"] = lambda o, t, k, w: o.get_linear_complexity(complexityType=t, userAlphabet=[UA1, UA2][k], blobLen=w)
+    ops["get_linear_complexity(user,size)"] = lambda o, t, k, size, w: o.get_linear_complexity(complexityType=t, alphabetSize=size, userAlphabet=[UA1, UA2][k], blobLen=w)
+    ops["get_reduced_alphabet_sequence(user,size)"] = lambda o, k, size: o.get_reduced_alphabet_sequence(alphabetSize=size, userAlphabet=[UA1, UA2, UA3][k])
     return ops
 
 
@@ -134,6 +136,9 @@ TARGETED = [
     [("get_amino_acid_fractions", ()), ("get_amino_acid_fractions", ())],
     [("get_isoelectric_point", ()), ("get_isoelectric_point", ()), ("get_isoelectric_point", ())],
     [("get_SCD", ()), ("get_SCD", ())],
+    [("get_linear_complexity(user,size)", ("WF", 1, 4, 3)), ("get_reduced_alphabet_sequence(size)", (4,)), ("get_linear_complexity(cfg)", ("WF", 4, 3, 1, 2))],
+    [("get_reduced_alphabet_sequence(user,size)", (0, 8)), ("get_reduced_alphabet_sequence(size)", (8,)), ("get_linear_complexity(cfg)", ("LC", 8, 3, 1, 2))],
+    [("get_reduced_alphabet_sequence(user,size)", (1, 2)), ("get_linear_complexity(cfg)", ("WF", 2, 2, 1, 3)), ("get_reduced_alphabet_sequence(size)", (2,))],
     [("get_kappa_X", ("EDS", "SKR")), ("get_kappa_X", ("SKR", "EDS")), ("get_kappa_X", ("EDS", "SKR"))],
     [("get_kappa_X", ("KR", "ED")), ("get_kappa_X", ("ED", "KR")), ("get_kappa", ())],
     [("get_kappa_X", ("ED", "KR")), ("get_kappa_X", ("DEK", "R")), ("get_kappa_X", ("DEKR",)), ("get_kappa_X", ("D", "EKR"))],
@@ -265,6 +270,8 @@ def cases(tier, seed):
     # chains in which almost nothing but arginine (or nothing at all) titrates: the isoelectric-point search leaves 0..14
     seqs[18:24] = ["RRRRRRRRRRRRGG", "R" * 20 + "HK", "RRRRRRRRRRGSGSR", "GSGSGSGSQQ", "R" * 45 + "D", "KRRRRRRRRRRRRRRRRRRR"]
     yield {"sweep": 260 if tier == "quick" else 900, "seqs": [], "o": 3}
+    # an object with nine phosphosites: the read-only distribution query (512 states) must leave the list as it is
+    yield {"seqs": ["STSYTKSYSTE"], "o": 77, "all_sites": True}
     for j in range(2 if tier == "quick" else 8):
         yield {"threads": 1, "seqs": [rng.choice(seqs) for _ in range(6)] + ["SGGTYKKEESTYPPLLMM", "IIIIIIIIIIKE"], "o": j}
     for i in range(NHIST[tier]):
@@ -401,7 +408,11 @@ def judge(case, rep, S):
         o = SP(s)
         sty = [i + 1 for i, c in enumerate(s) if c in "STY"]
         pre = []
-        if sty and rng.random() < 0.4:
+        if case.get("all_sites"):
+            pre = list(sty)
+            o.set_phosphosites(list(pre))
+            rep.cnt("objects_with_nine_phosphosites")
+        elif sty and rng.random() < 0.4:
             pre = rng.sample(sty, min(len(sty), rng.randint(1, 4)))
             o.set_phosphosites(list(pre))
         objs.append(o)
@@ -427,6 +438,9 @@ def judge(case, rep, S):
     n0 = _z["memo"].get("__n", 0)
     history = []
     pending = []                      # targeted follow-up calls: (object index, name, args)
+    if case.get("all_sites"):
+        pending.extend([(0, "get_full_phosphostatus_kappa_distribution", ()), (0, "get_phosphosites", ()), (0, "get_phosphosequence", ()),
+                        (0, "get_kappa_after_phosphorylation", ()), (0, "get_full_phosphostatus_kappa_distribution", ())])
     if len(objs) > 1 and len(set(seqs)) == 1:
         # the same questions to each of the objects that share a string, one after the other
         for nm_ in rng.sample(["get_kappa_after_phosphorylation", "get_phosphosequence", "get_Omega", "get_kappa", "get_full_phosphostatus_kappa_distribution",
@@ -467,7 +481,7 @@ def judge(case, rep, S):
                 name, args = random_call(rng, N)
             if name == "get_SCD" and N > 80:
                 name, args = "get_delta", ()
-            if name == "get_full_phosphostatus_kappa_distribution" and len(presets[k]) > 3:
+            if name == "get_full_phosphostatus_kappa_distribution" and len(presets[k]) > 3 and not case.get("all_sites"):
                 name, args = "get_phosphosites", ()
             history.append((k, name, args))
             try:
